@@ -123,3 +123,13 @@ def _sn_diffres(v):
     return v['monitor'] in ('mix', 'bounds', 'hard-vs-export') and \
         d.get('per_invocation') is True and d.get('diff_resolution_block') is True and \
         d.get('matches_first_callsite_shape_model') is True
+
+
+@predicate('supernet-soft-in-eval')
+def _sn_soft_eval(v):
+    """SuperNetCombiner in eval mode without hard_softmax: theta stays the soft (temperature)
+    softmax - a probability vector whose arg-max is R-select - instead of the one-hot."""
+    d = _d(v)
+    return v['monitor'] == 'sampling-rule' and d.get('kind') == 'sn' and \
+        d.get('training') is False and d.get('hard') is False and d.get('at_argmax') is True and \
+        d.get('onehot') is False
